@@ -10,7 +10,7 @@ Import ListNotations.
 
 Inductive rule :=
   | ROperand        (* operand of the wrong type; path -> EUn/EBin node, or (at a i) / (array_length a) / a non-empty array
-                       literal (its first element); arg = 2*literal choice + operand index *)
+                       literal (its first element) / a string builtin; arg = 2*literal choice + operand index *)
   | RArgType        (* argument of the wrong type; path -> ECall node; arg = 2*argument index + literal choice *)
   | RArityPlus      (* one argument too many; path -> ECall *)
   | RArityMinus     (* one argument too few; path -> ECall with at least one argument *)
@@ -101,6 +101,18 @@ Fixpoint at_expr (pos : list nat) (f : expr -> option expr) (e : expr) {struct e
           | S O => option_map (EAt a) (at_expr pos' f i)
           | _ => None end
       | ELen a => match k with O => option_map ELen (at_expr pos' f a) | _ => None end
+      | EStr1 o a => match k with O => option_map (EStr1 o) (at_expr pos' f a) | _ => None end
+      | EStr2 o a b =>
+          match k with
+          | O => option_map (fun a' => EStr2 o a' b) (at_expr pos' f a)
+          | S O => option_map (EStr2 o a) (at_expr pos' f b)
+          | _ => None end
+      | ESubstr a b c =>
+          match k with
+          | O => option_map (fun a' => ESubstr a' b c) (at_expr pos' f a)
+          | S O => option_map (fun b' => ESubstr a b' c) (at_expr pos' f b)
+          | S (S O) => option_map (ESubstr a b) (at_expr pos' f c)
+          | _ => None end
       | _ => None
       end
   end.
@@ -186,6 +198,12 @@ Definition rw_operand (arg : N) (e : expr) : option expr :=
   | EAt a i => Some (if right then EAt a (wrong_lit TInt k) else EAt (wrong_lit TArr k) i)
   | ELen _ => Some (ELen (wrong_lit TArr k))
   | EArr (_ :: r) => Some (EArr (wrong_lit TInt k :: r))
+  (* string builtins: the string operand (even arg) or the other operand (odd arg) becomes a literal of another type *)
+  | EStr1 SLen _ => Some (EStr1 SLen (wrong_lit TStr k))
+  | EStr1 SOfInt _ => Some (EStr1 SOfInt (wrong_lit TInt k))
+  | EStr2 o a b =>
+      Some (if right then EStr2 o a (wrong_lit (match o with SCharAt => TInt | _ => TStr end) k) else EStr2 o (wrong_lit TStr k) b)
+  | ESubstr a b c => Some (if right then ESubstr a (wrong_lit TInt k) c else ESubstr (wrong_lit TStr k) b c)
   | _ => None
   end.
 
